@@ -79,6 +79,8 @@ def run(name, tier, props):
     d = os.path.join(VERIF, "seeded", name)
     patch = os.path.join(d, "patch.diff")
     meta = json.load(open(os.path.join(d, "meta.json")))
+    if meta.get("retired"):
+        return {"retired": meta["retired"], "detected": None}
     props = props or [meta.get("property", name.split("-")[0])]
     rc, out = sh(["git", "-C", REPO, "status", "--porcelain", "--untracked-files=no"])
     if out.strip():
@@ -144,7 +146,7 @@ def main():
                 names.append(args[i]); i += 1
         for n in names:
             r = run(n, tier, props)
-            print(n, "DETECTED" if r.get("detected") else "MISSED", json.dumps(r)[:400])
+            print(n, "RETIRED" if r.get("retired") else "DETECTED" if r.get("detected") else "MISSED", json.dumps(r)[:400])
 
 
 if __name__ == "__main__":
